@@ -456,6 +456,33 @@ func (c19) Case(c *core.Ctx) {
 				c.Count("substitution:error-reported")
 			}
 		}
+		// a document the tokenizer reads to its end but that cannot be decoded (a number no float64 holds; an entity
+		// nobody defined), put between the written documents: an error, together with exactly the Maps before it
+		if len(spans) > 0 {
+			k := r.Intn(len(spans) + 1)
+			at := len(data)
+			if k < len(spans) {
+				at = spans[k].start
+			}
+			bad := []string{`<a>&hearts;</a>`, `<a b="&nope;">x</a>`, `<a><b>1</b>&nbsp;</a>`}[r.Intn(3)]
+			if isJSON {
+				bad = []string{`{"n":1e999,"k":"v"}`, `{"k":"v","l":[1,-1e400]}`, `{"a":{"n":1e+900},"z":1}`}[r.Intn(3)]
+			}
+			mut := append(append(append([]byte{}, data[:at]...), []byte(bad+"\n")...), data[at:]...)
+			os.WriteFile(fn, mut, 0o644)
+			c.Evals(1)
+			c.Count("undecodable-document-inserted")
+			got := read(rawReader)
+			det := core.D{"writer": writer, "file": string(mut), "inserted": bad, "documents_before": k, "returned_maps": len(got.fps), "err": fmt.Sprint(got.err)}
+			ok := got.err != nil && len(got.fps) == k
+			for i := 0; ok && i < k; i++ {
+				ok = got.fps[i] == wantFp[i]
+			}
+			if !ok {
+				c.Violate("c19-undecodable-document", "a file holding a document that cannot be decoded must give an error together with exactly the Maps read before it", det)
+			}
+			os.WriteFile(fn, data, 0o644)
+		}
 		os.WriteFile(fn, data, 0o644)
 	}
 
